@@ -123,6 +123,7 @@ def run_property(prop, tier, rule_fn, meta):
             with open(cf) as f:
                 canaries = json.load(f).get(prop, [])
         extra['perturbations'] = perturb.run(doc, rule_fn, prop, canaries)
+        extra['perturbations'].pop('detected_all', None)
     return finish(prop, tier, seed, all_results, infos, analysed, stats, meta, t0, crashed, extra)
 
 
